@@ -299,15 +299,19 @@ Loop:
 
 // UnaryExpr ::= UnionExpr | '-' UnaryExpr
 func (p *parser) parseUnaryExpr(n node) node {
-	minus := false
+	minus, signed := false, false
 	// ignore '-' sequence
 	for p.r.typ == itemMinus {
 		p.next()
 		minus = !minus
+		signed = true
 	}
 	opnd := p.parseUnionExpr(n)
 	if minus {
 		opnd = newOperatorNode("*", opnd, newOperandNode(float64(-1)))
+	} else if signed {
+		// an even number of '-' still converts the operand to a number.
+		opnd = newOperatorNode("*", opnd, newOperandNode(float64(1)))
 	}
 	return opnd
 }
